@@ -410,3 +410,375 @@ Proof.
   rewrite HP by lia. cbn [app]. apply Ok_dst_ext; lia.
 Qed.
 End Nested.
+
+(** ---------------------------------------------------------------- *)
+(** * The quantifier loop                                             *)
+(** ---------------------------------------------------------------- *)
+Definition final (p b : option N) : option N := match p with Some v => Some v | None => b end.
+
+(** the words still to be read: pending result type / id, then the operands *)
+Definition enc (prt prid : option N) (os : list operand) : list N :=
+  oword prt ++ oword prid ++ flat os.
+
+Lemma enc_nonempty prt prid os : none prt && none prid && nil os = false -> (1 <= length (enc prt prid os))%nat.
+Proof.
+  unfold enc. destruct prt, prid, os as [|o1 os1]; cbn [none nil andb oword app length]; try discriminate; try lia.
+  intros _. apply flat_asm_nonempty.
+Qed.
+
+Lemma Ok4_ext {A B C} (a : A) (b : B) (c c' : C) bs o o' l l' :
+  c = c' -> o = o' -> l = l' -> Ok (a, b, c, dst bs o l) = Ok (a, b, c', dst bs o' l').
+Proof. intros -> -> ->. reflexivity. Qed.
+
+Lemma parse_lops_step G fuel t opc k q lops idx d rt rid acc : limit_reached d = false ->
+  parse_lops G (S fuel) t opc ((k, q) :: lops) idx d rt rid acc =
+  do (rt1, rid1, acc1, d1) <- step_kind G t opc k idx d rt rid acc;
+  match q with
+  | ZeroOrMore => parse_lops G fuel t opc ((k, q) :: lops) idx d1 rt1 rid1 acc1
+  | _ => parse_lops G fuel t opc lops idx d1 rt1 rid1 acc1
+  end.
+Proof. intros H. cbn [parse_lops]. rewrite H. destruct q; reflexivity. Qed.
+
+Lemma parse_lops_break G fuel t opc k q lops idx d rt rid acc : limit_reached d = true -> q <> One ->
+  parse_lops G (S fuel) t opc ((k, q) :: lops) idx d rt rid acc = Ok (rt, rid, acc, d).
+Proof. intros H Hq. cbn [parse_lops]. rewrite H. destruct q; [congruence|reflexivity|reflexivity]. Qed.
+
+Section Loop.
+Variables (G : gdata) (t : tracker) (opc : N).
+Hypothesis SMALL : small_opcodes (gd_table G) = true.
+
+(** an ordinary kind *)
+Definition ordinary (k : N) : Prop :=
+  N.eqb k (gd_k_rt G) = false /\ N.eqb k (gd_k_rid G) = false /\ N.eqb k (gd_k_ctx G) = false /\
+  N.eqb k (gd_k_pairlitid G) = false /\ N.eqb k (gd_k_specop G) = false.
+
+Lemma step_ordinary k idx os a rest rt rid acc : ordinary k -> split_kind G k os = Some (a, rest) ->
+  os = a ++ rest /\
+  forall r o l, N.of_nat (length (flat a)) <= l ->
+    step_kind G t opc k idx (dst (bytes_of_words (flat a) ++ r) o l) rt rid acc
+    = Ok (rt, rid, acc ++ a, dst r (o + 4 * N.of_nat (length (flat a))) (l - N.of_nat (length (flat a)))).
+Proof.
+  intros (E1 & E2 & E3 & E4 & E5) HS. destruct (parse_operand_ok _ _ _ _ _ HS) as [Heq HR].
+  split; [exact Heq|]. intros r o l Hl. unfold step_kind. rewrite E1, E2, E3, E4, E5.
+  rewrite HR by exact Hl. reflexivity.
+Qed.
+
+Lemma lops_star_ok k lops : ordinary k -> forall sf os, split_star G k sf os = true ->
+  forall fuel idx rt rid acc r o l,
+    l = N.of_nat (length (flat os)) -> (length (flat os) < fuel)%nat ->
+    parse_lops G fuel t opc ((k, ZeroOrMore) :: lops) idx (dst (bytes_of_words (flat os) ++ r) o l) rt rid acc
+    = Ok (rt, rid, acc ++ os, dst r (o + 4 * l) 0).
+Proof.
+  intros Hk.
+  assert (Hnil: forall fuel idx rt rid acc r o l, l = N.of_nat (length (flat [])) -> (length (flat []) < fuel)%nat ->
+    parse_lops G fuel t opc ((k, ZeroOrMore) :: lops) idx (dst (bytes_of_words (flat []) ++ r) o l) rt rid acc
+    = Ok (rt, rid, acc ++ [], dst r (o + 4 * l) 0)).
+  { intros fuel idx rt rid acc r o l -> Hf. destruct fuel; [cbn in Hf; lia|].
+    cbn [flat_map bytes_of_words app length].
+    rewrite parse_lops_break by (try apply limit_reached_dst; discriminate).
+    rewrite app_nil_r. f_equal. f_equal. apply dst_ext; lia. }
+  induction sf as [|sf IH]; intros os H fuel idx rt rid acc r o l Hl Hf.
+  - destruct os; [|discriminate]. apply Hnil; assumption.
+  - destruct os as [|o1 os1]; [apply Hnil; assumption|]. cbn [split_star] in H.
+    destruct (split_kind G k (o1 :: os1)) as [[[|a0 a] rest]|] eqn:E; try discriminate.
+    destruct (step_ordinary k idx _ _ _ rt rid acc Hk E) as [Heq HR]. rewrite Heq in *. clear Heq E.
+    rewrite flat_map_app, app_length in *. pose proof (flat_asm_nonempty a0 a) as Hne.
+    destruct fuel; [lia|].
+    rewrite parse_lops_step by (rewrite limit_reached_dst; lia).
+    rewrite bytes_of_words_app, <- app_assoc, HR by lia. cbn [bind].
+    rewrite (IH _ H) by lia. rewrite app_assoc. f_equal. f_equal. apply dst_ext; lia.
+Qed.
+
+(** OpSwitch: (literal, label) pairs *)
+Lemma pairs_ind (P : list operand -> Prop) :
+  P [] -> (forall l, P [l]) -> (forall l x r, P r -> P (l :: x :: r)) -> forall os, P os.
+Proof. intros H0 H1 H2. fix IH 1. intros [|l [|x r]]; [apply H0|apply H1|apply H2; apply IH]. Qed.
+
+Lemma step_pair k idx sel lit w rt rid acc :
+  N.eqb k (gd_k_rt G) = false -> N.eqb k (gd_k_rid G) = false -> N.eqb k (gd_k_ctx G) = false ->
+  N.eqb k (gd_k_pairlitid G) = true -> N.eqb opc OP_SWITCH = true ->
+  literal_ok t sel lit = true -> w < w32 ->
+  forall r o l, N.of_nat (length (flat [lit; OIdRef w])) <= l ->
+    step_kind G t opc k idx (dst (bytes_of_words (flat [lit; OIdRef w]) ++ r) o l) rt rid (OIdRef sel :: acc)
+    = Ok (rt, rid, (OIdRef sel :: acc) ++ [lit; OIdRef w],
+          dst r (o + 4 * N.of_nat (length (flat [lit; OIdRef w]))) (l - N.of_nat (length (flat [lit; OIdRef w])))).
+Proof.
+  intros E1 E2 E3 E4 EO HL Hw r o l Hl. unfold step_kind. rewrite E1, E2, E3, E4, EO.
+  cbn [flat_map asm_operand app] in *. rewrite ?app_nil_r in *. rewrite app_length in Hl. cbn [length] in Hl.
+  rewrite bytes_of_words_app, <- app_assoc.
+  rewrite (parse_literal_ok t sel idx lit HL) by lia. cbn [bind].
+  rewrite bytes_of_words_single, word_read by lia. cbn [dreq bind].
+  f_equal. f_equal. apply dst_ext; rewrite app_length; cbn [length]; lia.
+Qed.
+
+Lemma lops_pairs_ok k lops sel :
+  N.eqb k (gd_k_rt G) = false -> N.eqb k (gd_k_rid G) = false -> N.eqb k (gd_k_ctx G) = false ->
+  N.eqb k (gd_k_pairlitid G) = true -> N.eqb opc OP_SWITCH = true ->
+  forall os, pairs_ok t sel os = true ->
+  forall fuel idx rt rid acc r o l,
+    l = N.of_nat (length (flat os)) -> (length (flat os) < fuel)%nat ->
+    parse_lops G fuel t opc ((k, ZeroOrMore) :: lops) idx (dst (bytes_of_words (flat os) ++ r) o l)
+               rt rid (OIdRef sel :: acc)
+    = Ok (rt, rid, (OIdRef sel :: acc) ++ os, dst r (o + 4 * l) 0).
+Proof.
+  intros E1 E2 E3 E4 EO.
+  induction os as [|l0|l0 x os IH] using pairs_ind; intros H fuel idx rt rid acc r o l Hl Hf.
+  - subst l. destruct fuel; [cbn in Hf; lia|]. cbn [flat_map bytes_of_words app length].
+    rewrite parse_lops_break by (try apply limit_reached_dst; discriminate).
+    rewrite app_nil_r. f_equal. f_equal. apply dst_ext; lia.
+  - discriminate.
+  - cbn [pairs_ok] in H. destruct x as [|w| | | | | | |]; try discriminate.
+    apply andb_prop in H as [H H3]. apply andb_prop in H as [H1 H2].
+    change (l0 :: OIdRef w :: os) with ([l0; OIdRef w] ++ os) in *.
+    rewrite flat_map_app, app_length in *.
+    pose proof (flat_asm_nonempty l0 [OIdRef w]) as Hne.
+    destruct fuel; [lia|].
+    rewrite parse_lops_step by (rewrite limit_reached_dst; lia).
+    rewrite bytes_of_words_app, <- app_assoc.
+    rewrite (step_pair k idx sel l0 w rt rid acc E1 E2 E3 E4 EO H1) by lia. cbn [bind].
+    change ((OIdRef sel :: acc) ++ [l0; OIdRef w]) with (OIdRef sel :: (acc ++ [l0; OIdRef w])).
+    rewrite (IH H3) by lia. cbn [app]. rewrite <- app_assoc. f_equal. f_equal. apply dst_ext; lia.
+Qed.
+
+(** the main loop lemma *)
+Lemma lops_ok ity : forall lops prt prid acc os,
+  conf_lops G t opc ity lops prt prid acc os = true ->
+  forall fuel idx rt rid r o l,
+    final prt rt = ity ->
+    l = N.of_nat (length (enc prt prid os)) ->
+    (length lops + length (enc prt prid os) < fuel)%nat ->
+    parse_lops G fuel t opc lops idx (dst (bytes_of_words (enc prt prid os) ++ r) o l) rt rid acc
+    = Ok (final prt rt, final prid rid, acc ++ os, dst r (o + 4 * l) 0).
+Proof.
+  induction lops as [|[k q] lops IH]; intros prt prid acc os H fuel idx rt rid r o l Hity Hl Hf.
+  - cbn [conf_lops] in H. destruct prt, prid, os; try discriminate.
+    destruct fuel; [lia|]. subst l. cbn [parse_lops enc oword flat_map app bytes_of_words length final].
+    rewrite app_nil_r. f_equal. f_equal. apply dst_ext; lia.
+  - cbn [conf_lops] in H. cbn [length] in Hf. destruct fuel as [|fuel]; [lia|].
+    destruct (none prt && none prid && nil os) eqn:Edone.
+    { (* nothing left *)
+      destruct prt, prid, os; try discriminate. subst l.
+      cbn [enc oword flat_map app bytes_of_words length final].
+      rewrite parse_lops_break; [|apply limit_reached_dst|destruct q; [discriminate|discriminate|discriminate]].
+      rewrite app_nil_r. f_equal. f_equal. apply dst_ext; lia. }
+    pose proof (enc_nonempty _ _ _ Edone) as Hne.
+    destruct (N.eqb k (gd_k_rt G)) eqn:E1.
+    { (* result type *)
+      destruct prt as [v|]; [|discriminate].
+      apply andb_prop in H as [H H3]. apply andb_prop in H as [H1 H2].
+      unfold enc in *. cbn [oword app length] in *.
+      rewrite parse_lops_step by (rewrite limit_reached_dst; lia).
+      unfold step_kind. rewrite E1. rewrite bytes_of_words_cons, <- app_assoc.
+      rewrite word_read by lia. cbn [dreq bind].
+      assert (HI := IH None prid acc os H3 fuel idx (Some v) rid r (o + 4) (l - 1)).
+      unfold enc in HI. cbn [oword app final] in HI. cbn [final] in *.
+      destruct q; cbn [variadic negb] in H1; try discriminate;
+        (rewrite HI by (auto; lia); f_equal; f_equal; apply dst_ext; lia). }
+    destruct (N.eqb k (gd_k_rid G)) eqn:E2.
+    { (* result id *)
+      destruct prt as [|]; [discriminate|]. destruct prid as [v|]; [|discriminate].
+      apply andb_prop in H as [H H3]. apply andb_prop in H as [H1 H2].
+      unfold enc in *. cbn [oword app length] in *.
+      rewrite parse_lops_step by (rewrite limit_reached_dst; lia).
+      unfold step_kind. rewrite E1, E2. rewrite bytes_of_words_cons, <- app_assoc.
+      rewrite word_read by lia. cbn [dreq bind].
+      assert (HI := IH None None acc os H3 fuel idx rt (Some v) r (o + 4) (l - 1)).
+      unfold enc in HI. cbn [oword app final] in HI. cbn [final] in *.
+      destruct q; cbn [variadic negb] in H1; try discriminate;
+        (rewrite HI by (auto; lia); f_equal; f_equal; apply dst_ext; lia). }
+    destruct prt as [|]; [discriminate|]. destruct prid as [|]; [discriminate|].
+    cbn [none andb negb] in H, Edone. unfold enc in *. cbn [oword app final] in *.
+    assert (IH' : forall a os1 fuel' rid' o' l',
+              conf_lops G t opc ity lops None None (acc ++ a) os1 = true ->
+              l' = N.of_nat (length (flat os1)) -> (length lops + length (flat os1) < fuel')%nat ->
+              parse_lops G fuel' t opc lops idx (dst (bytes_of_words (flat os1) ++ r) o' l') rt rid' (acc ++ a)
+              = Ok (rt, rid', (acc ++ a) ++ os1, dst r (o' + 4 * l') 0)).
+    { intros a os1 fuel' rid' o' l' HC Hl' Hf'.
+      assert (HI := IH None None (acc ++ a) os1 HC fuel' idx rt rid' r o' l').
+      unfold enc in HI. cbn [oword app final] in HI. apply HI; auto. }
+    destruct (N.eqb k (gd_k_ctx G)) eqn:E3.
+    { (* context-dependent literal *)
+      apply andb_prop in H as [H H3]. apply andb_prop in H as [H1 H2].
+      destruct ity as [id|]; [|discriminate]. destruct os as [|o1 os1]; [discriminate|].
+      apply andb_prop in H3 as [H3 H4].
+      rewrite parse_lops_step by (rewrite limit_reached_dst; lia).
+      subst rt. unfold step_kind. rewrite E1, E2, E3, H1.
+      cbn [flat_map] in *. rewrite app_length in *. rewrite bytes_of_words_app, <- app_assoc.
+      rewrite (parse_literal_ok t id idx o1 H3) by lia. cbn [bind].
+      pose proof (asm_operand_nonempty o1).
+      destruct q; cbn [variadic negb] in H2; try discriminate;
+        (rewrite (IH' [o1] os1) by (auto; lia); apply Ok4_ext; [rewrite <- ?app_assoc; reflexivity|lia|lia]). }
+    destruct (N.eqb k (gd_k_pairlitid G)) eqn:E4.
+    { (* OpSwitch pairs *)
+      apply andb_prop in H as [H1 H]. destruct acc as [|[|sel| | | | | | |] acc]; try discriminate.
+      destruct (variadic q) eqn:EV.
+      - destruct q; try discriminate.
+        rewrite (lops_pairs_ok k lops sel E1 E2 E3 E4 H1 os H) by lia. reflexivity.
+      - destruct os as [|l0 [|[|w| | | | | | |] os1]]; try discriminate.
+        apply andb_prop in H as [H H4]. apply andb_prop in H as [H2 H3].
+        rewrite parse_lops_step by (rewrite limit_reached_dst; lia).
+        change (l0 :: OIdRef w :: os1) with ([l0; OIdRef w] ++ os1) in *.
+        rewrite flat_map_app, app_length in *.
+        pose proof (flat_asm_nonempty l0 [OIdRef w]) as Hne2.
+        rewrite bytes_of_words_app, <- app_assoc.
+        rewrite (step_pair k idx sel l0 w rt rid acc E1 E2 E3 E4 H1 H2) by lia. cbn [bind].
+        destruct q; try discriminate;
+          (rewrite (IH' [l0; OIdRef w] os1) by (auto; lia); apply Ok4_ext; [rewrite <- ?app_assoc; reflexivity|lia|lia]). }
+    destruct (N.eqb k (gd_k_specop G)) eqn:E5.
+    { (* OpSpecConstantOp *)
+      apply andb_prop in H as [H1 H]. destruct os as [|[| | | | | | |n|] os1]; try discriminate.
+      apply andb_prop in H as [H2 H].
+      destruct (lookup_core (gd_table G) n) as [g|] eqn:EL; [|discriminate].
+      destruct (conf_nested G (g_operands g) os1) as [[a os2]|] eqn:EN; [|discriminate].
+      destruct (parse_spec_constant_op_ok G SMALL n os1 g a os2 EL EN) as [Heq HP].
+      rewrite parse_lops_step by (rewrite limit_reached_dst; lia).
+      unfold step_kind. rewrite E1, E2, E3, E4, E5.
+      rewrite HP by exact Hl. cbn [bind].
+      subst os1. change (OSpecOp n :: a ++ os2) with ((OSpecOp n :: a) ++ os2) in *.
+      rewrite flat_map_app, app_length in *.
+      pose proof (flat_asm_nonempty (OSpecOp n) a) as Hne2.
+      destruct q; cbn [variadic negb] in H1; try discriminate;
+        (rewrite (IH' (OSpecOp n :: a) os2) by (auto; lia); apply Ok4_ext; [rewrite <- ?app_assoc; reflexivity|lia|lia]). }
+    assert (Hk: ordinary k) by (unfold ordinary; auto).
+    destruct (variadic q) eqn:EV.
+    + destruct q; try discriminate.
+      rewrite (lops_star_ok k lops Hk _ _ H) by lia. reflexivity.
+    + destruct (split_kind G k os) as [[a os1]|] eqn:ES; [|discriminate].
+      destruct (step_ordinary k idx _ _ _ rt rid acc Hk ES) as [Heq HR]. subst os.
+      rewrite flat_map_app, app_length in *.
+      rewrite parse_lops_step by (rewrite limit_reached_dst; lia).
+      rewrite bytes_of_words_app, <- app_assoc, HR by lia. cbn [bind].
+      destruct q; try discriminate;
+        (rewrite (IH' a os1) by (auto; lia); apply Ok4_ext; [rewrite <- ?app_assoc; reflexivity|lia|lia]).
+Qed.
+End Loop.
+
+(** ---------------------------------------------------------------- *)
+(** * R1: the first word                                              *)
+(** ---------------------------------------------------------------- *)
+Lemma land_low_shifted a b : a < 65536 -> N.land a (b * 65536) = 0.
+Proof.
+  intros Ha. apply N.bits_inj. intros n. rewrite N.land_spec, N.bits_0.
+  change 65536 with (2 ^ 16) in *. rewrite <- N.shiftl_mul_pow2.
+  destruct (N.lt_ge_cases n 16) as [Hn|Hn].
+  - rewrite N.shiftl_spec_low by exact Hn. apply andb_false_r.
+  - rewrite <- (N.mod_small a (2 ^ 16)) by exact Ha.
+    rewrite N.mod_pow2_bits_high by exact Hn. reflexivity.
+Qed.
+
+Lemma first_word_ok opc len : opc < 65536 -> N.of_nat len < 65536 ->
+  first_word opc len = N.of_nat len * 65536 + opc.
+Proof.
+  intros Ho Hl. unfold first_word. rewrite N.mod_small by (unfold w32; lia).
+  pose proof (land_low_shifted opc (N.of_nat len) Ho) as HL.
+  rewrite <- (N.lxor_lor _ _ HL), <- (N.add_nocarry_lxor _ _ HL). lia.
+Qed.
+
+Lemma first_word_fields len opc : len < 65536 -> opc < 65536 ->
+  ((len * 65536 + opc) / 65536) mod 65536 = len /\ (len * 65536 + opc) mod 65536 = opc /\
+  len * 65536 + opc < w32.
+Proof. unfold w32. intros H1 H2. split; [|split]; timeout 20 lia. Qed.
+
+Lemma conforms_spec G t i : conforms G t i = true ->
+  exists g, lookup_core (gd_table G) (i_opcode i) = Some g /\
+            conf_lops G t (i_opcode i) (i_rtype i) (g_operands g) (i_rtype i) (i_rid i) [] (i_ops i) = true /\
+            N.of_nat (S (length (asm_body i))) < 65536 /\ i_opcode i < 65536.
+Proof.
+  unfold conforms. destruct (lookup_core (gd_table G) (i_opcode i)) as [g|] eqn:EL; [|discriminate].
+  intros H. apply andb_prop in H as [H1 H2]. exists g. split; [reflexivity|]. split; [exact H1|].
+  split; [lia|]. unfold lookup_core in EL. apply find_some in EL as [_ Heq]. apply N.eqb_eq in Heq.
+  rewrite <- Heq. apply N.mod_lt. lia.
+Qed.
+
+(** R1: the assembled first word is (word count << 16) + opcode, the word
+    count is the number of words emitted (nothing is truncated), and both
+    16-bit fields read back *)
+Theorem asm_first_word G t i : conforms G t i = true ->
+  asm_inst i = (N.of_nat (length (asm_inst i)) * 65536 + i_opcode i) :: asm_body i /\
+  N.of_nat (length (asm_inst i)) < 65536 /\ i_opcode i < 65536 /\
+  (hd 0 (asm_inst i) / 65536) mod 65536 = N.of_nat (length (asm_inst i)) /\
+  hd 0 (asm_inst i) mod 65536 = i_opcode i.
+Proof.
+  intros H. destruct (conforms_spec G t i H) as (g & _ & _ & Hlen & Hop).
+  assert (HL: length (asm_inst i) = S (length (asm_body i))) by reflexivity.
+  assert (HA: asm_inst i = (N.of_nat (length (asm_inst i)) * 65536 + i_opcode i) :: asm_body i).
+  { rewrite HL. unfold asm_inst. cbv zeta. rewrite first_word_ok by assumption. reflexivity. }
+  split; [exact HA|]. split; [rewrite HL; exact Hlen|]. split; [exact Hop|].
+  destruct (first_word_fields _ _ Hlen Hop) as (F1 & F2 & _).
+  rewrite HA. cbn [hd length]. rewrite HL. split; assumption.
+Qed.
+
+(** ---------------------------------------------------------------- *)
+(** * R2: parse (assemble i) = i                                      *)
+(** ---------------------------------------------------------------- *)
+(** what the round trip needs of the linked grammar data: table opcodes fit
+    16 bits, so that the entry [lookup_core] finds for a number carries that
+    number as its opcode.  (Arms that would panic ("slot"), unknown kinds and
+    ill-ordered result kinds need not be excluded for this direction: no
+    instruction conforms to them.)  The converse direction (R3) needs more;
+    [wf_gdata] is the conjunction. *)
+Definition res_free (G : gdata) (lops : list (N * quant)) : bool :=
+  forallb (fun o => negb (is_res (gd_k_rt G) (gd_k_rid G) (fst o))) lops.
+
+Definition special_quant_ok (G : gdata) (lops : list (N * quant)) : bool :=
+  forallb (fun o => negb (variadic (snd o)) || negb (N.eqb (fst o) (gd_k_ctx G) || N.eqb (fst o) (gd_k_specop G))) lops.
+
+Definition arms_nonempty (G : gdata) : bool :=
+  forallb (fun a => match a with ASimple [] => false | _ => true end) (gd_arms G).
+
+Definition wf_gdata (G : gdata) : bool :=
+  small_opcodes (gd_table G)                                                   (* R2 and R3 *)
+  && forallb (fun e => wf_operands (gd_k_rt G) (gd_k_rid G) (g_operands e)) (gd_table G)   (* R3 *)
+  && forallb (fun e => special_quant_ok G (g_operands e)) (gd_table G)          (* R3 *)
+  && negb (N.eqb (gd_k_rt G) (gd_k_rid G))                                      (* R3 *)
+  && arms_nonempty G.                                                          (* R3 *)
+
+Lemma wf_gdata_spec G : wf_gdata G = true ->
+  small_opcodes (gd_table G) = true /\
+  (forall e, In e (gd_table G) -> wf_operands (gd_k_rt G) (gd_k_rid G) (g_operands e) = true) /\
+  (forall e, In e (gd_table G) -> special_quant_ok G (g_operands e) = true) /\
+  N.eqb (gd_k_rt G) (gd_k_rid G) = false /\ arms_nonempty G = true.
+Proof.
+  unfold wf_gdata. intros H. apply andb_prop in H as [H H5]. apply andb_prop in H as [H H4].
+  apply andb_prop in H as [H H3]. apply andb_prop in H as [H1 H2].
+  rewrite forallb_forall in H2, H3. apply negb_true_iff in H4. auto.
+Qed.
+
+Theorem roundtrip_small G t i : small_opcodes (gd_table G) = true -> conforms G t i = true ->
+  forall r o idx,
+    parse_inst G t idx {| rest := bytes_of_words (asm_inst i) ++ r; off := o; lim := None |}
+    = Ok (i, {| rest := r; off := o + 4 * N.of_nat (length (asm_inst i)); lim := None |}).
+Proof.
+  intros WF H r o idx.
+  destruct (asm_first_word G t i H) as (HA & Hlen & Hop & _).
+  destruct (conforms_spec G t i H) as (g & EL & HC & _ & _).
+  destruct (lookup_core_opcode G WF _ _ EL) as [Hg _].
+  assert (HL: length (asm_inst i) = S (length (asm_body i))) by reflexivity.
+  destruct (first_word_fields _ _ Hlen Hop) as (F1 & F2 & F3).
+  rewrite HA at 1. rewrite HL in *. clear HA.
+  unfold parse_inst. rewrite bytes_of_words_cons, <- app_assoc.
+  rewrite word_read_nolim by exact F3. cbv zeta. rewrite F1, F2.
+  destruct (N.eqb (N.of_nat (S (length (asm_body i)))) 0) eqn:E0; [lia|].
+  rewrite EL, Hg.
+  change (set_limit {| rest := bytes_of_words (asm_body i) ++ r; off := o + 4; lim := None |}
+                    (N.of_nat (S (length (asm_body i))) - 1))
+    with (dst (bytes_of_words (asm_body i) ++ r) (o + 4) (N.of_nat (S (length (asm_body i))) - 1)).
+  pose proof (lops_ok G t (i_opcode i) WF (i_rtype i) (g_operands g) (i_rtype i) (i_rid i) [] (i_ops i) HC) as HP.
+  change (enc (i_rtype i) (i_rid i) (i_ops i)) with (asm_body i) in HP.
+  rewrite HP.
+  - cbn [bind]. rewrite limit_reached_dst. cbn [N.eqb]. change (0 =? 0) with true. cbv iota.
+    unfold clear_limit, dst. cbn [rest off app].
+    destruct i as [opc irt irid ops]. cbn [i_opcode i_rtype i_rid i_ops final] in *.
+    f_equal. f_equal.
+    + f_equal; [destruct irt|destruct irid]; reflexivity.
+    + f_equal. lia.
+  - destruct (i_rtype i); reflexivity.
+  - lia.
+  - unfold lops_fuel, dst. cbn [lim]. lia.
+Qed.
+
+Theorem roundtrip G t i : wf_gdata G = true -> conforms G t i = true ->
+  forall r o idx,
+    parse_inst G t idx {| rest := bytes_of_words (asm_inst i) ++ r; off := o; lim := None |}
+    = Ok (i, {| rest := r; off := o + 4 * N.of_nat (length (asm_inst i)); lim := None |}).
+Proof. intros WF. apply roundtrip_small. apply wf_gdata_spec in WF. tauto. Qed.
